@@ -18,3 +18,8 @@ pub use self::quotes::Quotes;
 pub use self::unit::{CssDimension, Dimension, Unit};
 pub use self::unitset::{CssDimensionSet, UnitSet};
 pub(crate) use range::ValueRange;
+
+/// Verification hook (see /verif): exposes the crate-private `@for` range.
+#[cfg(kaj_rsass_verif)]
+#[doc(hidden)]
+pub use range::ValueRange as VerifValueRange;
